@@ -264,8 +264,17 @@ impl Layer {
     pub fn swap_char(&mut self, pos1: impl Into<Position>, pos2: impl Into<Position>) {
         let pos1 = pos1.into();
         let pos2 = pos2.into();
+        // a swap is all or nothing: if one of the two cells can't be written the other one is not changed either
+        let inside = |p: Position| p.x >= 0 && p.y >= 0 && p.x < self.get_width() && p.y < self.get_height();
+        if !inside(pos1) || !inside(pos2) {
+            return;
+        }
         let tmp = self.get_char(pos1);
-        self.set_char(pos1, self.get_char(pos2));
+        let other = self.get_char(pos2);
+        if self.properties.has_alpha_channel && self.properties.is_alpha_channel_locked && tmp.is_visible() != other.is_visible() {
+            return;
+        }
+        self.set_char(pos1, other);
         self.set_char(pos2, tmp);
     }
 
